@@ -43,13 +43,14 @@ def run(chk):
     mu = prog.module("json_util.c")
     chk.require(mu is not None, "json_util.c not in the build")
     c20.r2(chk, prog, mu)
+    from . import c06
+    c06.r2(chk, prog)           # duplicate member names: the last value wins and the member keeps its first position (shared with C06)
     chk.undecided_clauses += [
         "the numeric conversions themselves (strtod / strtoll / strtoull are trusted; R6 decides only that their results reach the node unmodified)",
         "UTF-8 bit arithmetic of the \\\\u decoder (only the branch structure and byte counts are decided)",
         "number and literal tokens are opaque to the general automaton (R1) and decided separately with the token buffer modelled "
         "(R7, R8; strtod / strtoll / strtoull, strncmp / strncasecmp taken at their ISO C / POSIX contracts)",
         "equality of whole parsed documents with an independent parser's result",
-        "duplicate member handling (decided under C06: replace keeps the entry)",
     ]
     chk.assumptions.append("feeding one byte per call is observationally the same as any other chunking (property C03)")
 
